@@ -143,8 +143,32 @@ class ChunkModel:
         ext = None
         basic = None
         for h, alts in self.w_layout.get(vi, []):
+            shapes = {tuple(t[0] for t in a[0]) for a in alts}
             if len(alts) == 1 and not alts[0][1]:
                 for t in alts[0][0]:
+                    out.append((h, t))
+            elif len(shapes) == 1 and next(iter(shapes)):
+                # the same fields on every path, only the value written depends on a condition (e.g. a cap written as if/else):
+                # one field per position, described by the path that writes the variable value, with the hull of the intervals
+                ref = max(alts, key=lambda a: sum(1 for t in a[0] if len(t) > 1 and t[1] == "hole"))
+                for i, t in enumerate(ref[0]):
+                    los, his = [], []
+                    for a in alts:
+                        u = a[0][i]
+                        if len(u) >= 5 and u[1] == "hole":
+                            los.append(u[3])
+                            his.append(u[4])
+                        elif len(u) >= 3 and u[1] == "const" and isinstance(u[2], int):
+                            los.append(u[2])
+                            his.append(u[2])
+                    if len(t) >= 5 and t[1] == "hole" and los:
+                        role = t[2]
+                        consts = [a[0][i][2] for a in alts if len(a[0][i]) >= 3 and a[0][i][1] == "const" and isinstance(a[0][i][2], int)]
+                        holes = [a[0][i] for a in alts if len(a[0][i]) >= 5 and a[0][i][1] == "hole"]
+                        if len(alts) == 2 and len(consts) == 1 and len(holes) == 1 and holes[0][4] == consts[0] - 1:
+                            # "x if x < c else c" is min(x, c): the variable value is written exactly when it is below the constant
+                            role = "min(%s,%d)" % (holes[0][2], consts[0])
+                        t = (t[0], t[1], role, min(los), max(his))
                     out.append((h, t))
             elif all(a[1] for a in alts) or len(alts) == 2:
                 ext = (h, alts)
@@ -272,11 +296,16 @@ def interval_from_decisions(path, var_sub, lo=0, hi=4294967295):
     for t in path:
         if t[0] != "when":
             continue
-        m = re.match(r"^\((.*) (Lt|Le|Gt|Ge|Eq|Ne) (\d+)\)$", t[1])
+        desc, negs = t[1], 0
+        while desc.startswith("!"):
+            desc, negs = desc[1:], negs + 1
+        m = re.match(r"^\((.*) (Lt|Le|Gt|Ge|Eq|Ne) (\d+)\)$", desc)
         if not m or var_sub not in m.group(1):
             continue
         op, c = m.group(2), int(m.group(3))
-        truth = t[2].startswith("other")
+        truth = t[2].startswith("other") or t[2] == "1"
+        if negs % 2:
+            truth = not truth
         if not truth:
             op = {"Lt": "Ge", "Le": "Gt", "Gt": "Le", "Ge": "Lt", "Eq": "Ne", "Ne": "Eq"}[op]
         if op == "Lt":
@@ -378,7 +407,14 @@ def timestamp_semantics(m, rep, rule):
                 continue
             # not Full on this path: must be the delta to the previous header
             n_delta += 1
-            if not re.match(r"^\(load\(\*?load\(message\)\.timestamp\.value\) SubW load\(.*Some\.0\.timestamp\.value\)\)$", tsf):
+            direct = re.match(r"^\(load\(\*?load\(message\)\.timestamp\.value\) SubW load\(.*Some\.0\.timestamp\.value\)\)$", tsf)
+            # or: the value of the timestamp type's own subtraction applied to (message timestamp, previous timestamp) - that the
+            # subtraction is the difference modulo 2^32 is C20 R1, decided for whatever way it is written
+            via_sub = re.match(r"^call\(.*::sub\)\.value$", tsf) and any(
+                t[0] == "call" and re.search(r"ops::arith::Sub.*::sub$|::sub$", t[1]) and len(t[2]) >= 2 and
+                re.match(r"^load\(\*?load\(message\)\.timestamp\)$|^RtmpTimestamp\(load\(\*?load\(message\)\.timestamp\.value\)\)$", t[2][0]) and
+                re.search(r"Some\.0\.timestamp\)?$|Some\.0\.timestamp\.value\)\)$", t[2][1]) for t in p)
+            if not (direct or via_sub):
                 bad.append("a compressed header is written with timestamp field %s instead of (message timestamp - previous timestamp)" % tsf[:160])
     rep.floor(rule + ".paths", "add_chunk paths writing a Full header", n_full, 3)
     rep.check(rule, "writer:timestamp-semantics", not bad and n_delta >= 1,
